@@ -150,6 +150,14 @@ Definition cands_for : Z -> shgT -> Z -> dsT -> res (list cand) :=
 Definition cands_for_b (bs : Z) (hi : Z) (h : shgT) (di : Z) (d : dsT) : res (list cand) :=
   if bs =? 0 then Err ZeroDivision else cands_with (fun F l => batched F bs l) hi h di d.
 
+(* the probabilities of the RandomChoice sampler built from a table, up to a
+   common positive factor: weight_i = c_wn_i / c_wd_i, brought to the common
+   denominator W = lcm of the c_wd (so p_i / sum p = weight_i / sum weight exactly) *)
+Definition zlcm_l (l : list Z) : Z := fold_right Z.lcm 1 l.
+Definition samp_w (tbl : list cand) : list Z :=
+  let W := zlcm_l (map c_wd tbl) in
+  map (fun c => c_wn c * (W / c_wd c)) tbl.
+
 (* itertools.product(enumerate(shg_list), enumerate(data_list)) *)
 Fixpoint concatM {A} (l : list (res (list A))) : res (list A) :=
   match l with
@@ -324,7 +332,7 @@ Section Oracle.
     Ok (n_signal, fst r, snd r).
   (* a sampler built from the current table *)
   Definition generate (fuel : nat) (g : rng) (tbl : list cand) (dss : list dsT) (n_signal : Z) :=
-    generate_p fuel g (map c_wn tbl) tbl dss n_signal.
+    generate_p fuel g (samp_w tbl) tbl dss n_signal.
 End Oracle.
 
 (* ------------------------------------------- poisson switch of the MC generator *)
@@ -348,7 +356,7 @@ Section McPoisson.
   (* __init__ / _construct_signal_candidates: table, then a new sampler from it *)
   Definition mc_init (shgs : list shgT) (dss : list dsT) : res mcgen :=
     do tbl <- construct shgs dss;
-    Ok {| g_shgs := shgs; g_dss := dss; g_tbl := tbl; g_p := map c_wn tbl |}.
+    Ok {| g_shgs := shgs; g_dss := dss; g_tbl := tbl; g_p := samp_w tbl |}.
 
   Inductive mcop :=
   | OpChange (shgs : list shgT)                   (* change_shg_mgr *)
